@@ -5,6 +5,7 @@ CONSTANTS MaxSize = 8
  MaxAtoms = 4
  AtomKinds = {"A", "L", "F", "P", "B", "M"}
  LongKinds = {"A", "L"}
+ DeclAtoms = 3
  Variants <- VariantsQuick
  ExactOccursCheck = TRUE
  AnnotVarCheck = TRUE
